@@ -3,7 +3,7 @@
    holds_C03 (Run/RunAdapt.v) on the implementation's observations: obs_eqb, apply_adj, apply_all, adjs_of. *)
 From Coq Require Import String List Bool ZArith.
 From NRI Require Import Base.Strs Base.Assoc Model.Types Model.Result Spec.Apply Run.RunAdapt
-  Proofs.KeyedProofs Proofs.CombineWf Proofs.CombineBase Proofs.CombineProofs Proofs.CombineCorollaries Proofs.CombineWitness.
+  Proofs.KeyedProofs Proofs.CombineWf Proofs.CombineBase Proofs.CombineProofs Proofs.CombineCorollaries Proofs.CombineLastWriter Proofs.CombineWitness.
 Import ListNotations.
 
 (* For every original container, every number of plugins and every well-formed history (wf_create:
@@ -86,6 +86,87 @@ Theorem C03_annotation_last_writer :
      alookup k (c_ann (apply_adj c0 (s_adjust s))) = None).
 Proof. exact annotation_last_writer. Qed.
 Print Assumptions C03_annotation_last_writer.
+
+(* C03_last_writer, the other item kinds.  In a successful creation request let rp be the last plugin naming an
+   item (no plugin after it sets it or carries its removal marker).  Then the combined reply, read through
+   apply_adj on the original (projection I3), gives the item exactly the value rp gave it — never a value of an
+   earlier plugin, never a join — and no value at all when rp only carries its removal marker (markable kinds).
+   (Annotations: C03_annotation_last_writer above.) *)
+Theorem C03_last_writer_mounts :
+  forall c0 pre post rp s,
+    wf_create c0 (pre ++ rp :: post) = true ->
+    snd (run_request (RCreate c0) (pre ++ rp :: post)) = Ok s ->
+    forall k, (forall q, In q (adjs_of post) -> ~ names_mount k q) ->
+    (forall e, In e (a_mounts (adj_of rp)) -> m_dest e = k -> marked k = false ->
+               kfind m_dest k (c_mounts (apply_adj c0 (s_adjust s))) = Some e) /\
+    (~ In k (map m_dest (a_mounts (adj_of rp))) -> In (mark k) (map m_dest (a_mounts (adj_of rp))) ->
+     kfind m_dest k (c_mounts (apply_adj c0 (s_adjust s))) = None).
+Proof. exact last_writer_mounts. Qed.
+Print Assumptions C03_last_writer_mounts.
+
+Theorem C03_last_writer_devices :
+  forall c0 pre post rp s,
+    wf_create c0 (pre ++ rp :: post) = true ->
+    snd (run_request (RCreate c0) (pre ++ rp :: post)) = Ok s ->
+    forall k, (forall q, In q (adjs_of post) -> ~ names_device k q) ->
+    (forall e, In e (a_devices (adj_of rp)) -> d_path e = k -> marked k = false ->
+               kfind d_path k (c_devices (apply_adj c0 (s_adjust s))) = Some e) /\
+    (~ In k (map d_path (a_devices (adj_of rp))) -> In (mark k) (map d_path (a_devices (adj_of rp))) ->
+     kfind d_path k (c_devices (apply_adj c0 (s_adjust s))) = None).
+Proof. exact last_writer_devices. Qed.
+Print Assumptions C03_last_writer_devices.
+
+(* the environment entry of variable k is the string "k=v" *)
+Theorem C03_last_writer_env :
+  forall c0 pre post rp s,
+    wf_create c0 (pre ++ rp :: post) = true ->
+    snd (run_request (RCreate c0) (pre ++ rp :: post)) = Ok s ->
+    forall k, (forall q, In q (adjs_of post) -> ~ names_env k q) ->
+    (forall v, In (k, v) (a_env (adj_of rp)) -> marked k = false ->
+               kfind env_key k (c_env (apply_adj c0 (s_adjust s))) = Some (k ++ "=" ++ v)%string) /\
+    (~ In k (map fst (a_env (adj_of rp))) -> In (mark k) (map fst (a_env (adj_of rp))) ->
+     kfind env_key k (c_env (apply_adj c0 (s_adjust s))) = None).
+Proof. exact last_writer_env. Qed.
+Print Assumptions C03_last_writer_env.
+
+(* command line (args_value strips the removal marker), cgroups path, OOM score *)
+Theorem C03_last_writer_singletons :
+  forall c0 pre post rp s,
+    wf_create c0 (pre ++ rp :: post) = true ->
+    snd (run_request (RCreate c0) (pre ++ rp :: post)) = Ok s ->
+    (a_args (adj_of rp) <> [] -> (forall q, In q (adjs_of post) -> a_args q = []) ->
+     c_args (apply_adj c0 (s_adjust s)) = args_value (a_args (adj_of rp))) /\
+    (a_cgroups (adj_of rp) <> ""%string -> (forall q, In q (adjs_of post) -> a_cgroups q = ""%string) ->
+     c_cgroups (apply_adj c0 (s_adjust s)) = a_cgroups (adj_of rp)) /\
+    (forall v, a_oom (adj_of rp) = Some v -> (forall q, In q (adjs_of post) -> a_oom q = None) ->
+     c_oom (apply_adj c0 (s_adjust s)) = Some v).
+Proof. exact last_writer_singletons. Qed.
+Print Assumptions C03_last_writer_singletons.
+
+(* every scalar resource field; hugepage limits (read as a map, the last entry of a page size counts: alast);
+   unified keys *)
+Theorem C03_last_writer_resources :
+  forall c0 pre post rp s,
+    wf_create c0 (pre ++ rp :: post) = true ->
+    snd (run_request (RCreate c0) (pre ++ rp :: post)) = Ok s ->
+    (forall f v, flookup f (r_scal (a_res (adj_of rp))) = Some v ->
+                 (forall q, In q (adjs_of post) -> flookup f (r_scal (a_res q)) = None) ->
+                 flookup f (r_scal (c_res (apply_adj c0 (s_adjust s)))) = Some v) /\
+    (forall k v, alast k (r_hp (a_res (adj_of rp))) = Some v ->
+                 (forall q, In q (adjs_of post) -> ~ In k (map fst (r_hp (a_res q)))) ->
+                 alast k (r_hp (c_res (apply_adj c0 (s_adjust s)))) = Some v) /\
+    (forall k v, alast k (r_uni (a_res (adj_of rp))) = Some v ->
+                 (forall q, In q (adjs_of post) -> ~ In k (map fst (r_uni (a_res q)))) ->
+                 alookup k (r_uni (c_res (apply_adj c0 (s_adjust s)))) = Some v).
+Proof. exact last_writer_resources. Qed.
+Print Assumptions C03_last_writer_resources.
+
+(* non-vacuity: in C03_example, plugin 2 is the last one naming the mount "/x" (it removes and sets it again) *)
+Example C03_last_writer_example :
+  ex_rps = [ex_R ex_A1] ++ ex_R ex_A2 :: skipn 2 ex_rps /\
+  In (ex_mt "/x" "2") (a_mounts (adj_of (ex_R ex_A2))) /\
+  (forall q, In q (adjs_of (skipn 2 ex_rps)) -> ~ names_mount "/x" q).
+Proof. exact ex_last_writer. Qed.
 
 (* every clause of wf_create is necessary: inputs violating one clause on which the request succeeds and
    the combined adjustment does NOT give the sequential result (W7 per family, W7= and W7') *)
